@@ -59,7 +59,7 @@ def make_topology(n_atoms, residue_size=3):
     return top
 
 
-def tagged_arrays(n_frames, n_atoms, cell, seed=0):
+def tagged_arrays(n_frames, n_atoms, cell, seed=0, origin=(0.0, 0.0, 0.0)):
     """xyz (nm), time (ps), lengths (nm), angles (deg).  cell in {None,'ortho','tric'}."""
     i = np.arange(n_frames, dtype=np.float64)[:, None]
     a = np.arange(n_atoms, dtype=np.float64)[None, :]
@@ -68,7 +68,7 @@ def tagged_arrays(n_frames, n_atoms, cell, seed=0):
     x = 0.1 * (i + 1) + 0.013 * a
     y = 0.5 + 0.011 * a + 0.05 * ((i * 7) % 11)
     z = 1.0 + 0.007 * a * ((i % 3) + 1)
-    xyz = np.stack([x + 0 * a, y, z], axis=2) + jit
+    xyz = np.stack([x + 0 * a, y, z], axis=2) + jit + np.asarray(origin, dtype=np.float64)
     xyz = np.round(xyz, 3).astype(np.float32)          # representable at every format's precision
     time = (np.arange(n_frames) * 2.0 + 0.5 * (np.arange(n_frames) % 3)).astype(np.float32)
     if cell is None:
@@ -87,9 +87,9 @@ def tagged_arrays(n_frames, n_atoms, cell, seed=0):
     return xyz, time, L, A
 
 
-def make_traj(n_frames, n_atoms, cell, seed=0):
+def make_traj(n_frames, n_atoms, cell, seed=0, origin=(0.0, 0.0, 0.0)):
     import mdtraj as md
-    xyz, time, L, A = tagged_arrays(n_frames, n_atoms, cell, seed)
+    xyz, time, L, A = tagged_arrays(n_frames, n_atoms, cell, seed, origin)
     top = make_topology(n_atoms)
     t = md.Trajectory(xyz.copy(), top, time=time.copy(),
                       unitcell_lengths=None if L is None else L.copy(),
